@@ -96,6 +96,7 @@ type kase struct {
 	abandonedIdx []refBlock // index entries erased by a Rollback
 	histV        *uint64    // set while a historical (NewReadOnly(v)) read is being checked
 	pageSince    bool       // a GetBlocks page query went through the block cache since it was last purged
+	longKeys     bool       // the case's keys may exceed the 245-byte bound of WFKeys (ff-run cases: see ffRunPool)
 }
 
 const sigRolledBack = "C10:rolled-back-entry-visible-in-history"
@@ -186,12 +187,103 @@ func (c *kase) fail(sig, desc string) {
 	c.o.Fail(sig, desc, map[string]any{"case": c.name, "ops": append([]string{}, h...)})
 }
 
+// keyMax: the key length up to which the oracle applies. WFKeys bounds keys by 245 bytes so that key ++ version
+// stays below prefixEnd(prefix) = prefix ++ 257×0xFF whatever the key's bytes are; the ff-run cases use keys of up
+// to 258 bytes that stay below it because a byte < 0xFF comes before position 257.
+func (c *kase) keyMax() int {
+	if c.longKeys {
+		return 260
+	}
+	return 245
+}
+
+// ffRun: k has a component of length 255 (length byte 0xFF) that starts with at least 8 0xFF bytes
+func ffRun(k []byte) bool {
+	for i := 0; i < len(k); {
+		l := int(k[i])
+		if i+1+l > len(k) {
+			return false
+		}
+		if l == 255 && bytes.HasPrefix(k[i+1:], bytes.Repeat([]byte{0xFF}, 8)) {
+			return true
+		}
+		i += 1 + l
+	}
+	return false
+}
+
+// iterSig refines the signature of an iteration mismatch: is a key with such a component missing or extra?
+func (c *kase) iterSig(def string, got, exp []kv) string {
+	def = c.histSig(def, got, exp)
+	if def == sigRolledBack {
+		return def
+	}
+	in := func(l []kv, k []byte) bool {
+		for _, x := range l {
+			if bytes.Equal(x.k, k) {
+				return true
+			}
+		}
+		return false
+	}
+	for _, e := range exp {
+		if !in(got, e.k) && ffRun(e.k) {
+			return def + ":ff-run-component"
+		}
+	}
+	for _, g := range got {
+		if !in(exp, g.k) && ffRun(g.k) {
+			return def + ":ff-run-component"
+		}
+	}
+	return def
+}
+
+// ffRunPool: length-prefixed, prefix-free key tuples whose last component is 255 bytes long — its length byte is
+// 0xFF — and starts with a run of 8, 9, 17, 18, 100 or 254 0xFF bytes, directly under the empty prefix and under a
+// parent segment, next to ordinary siblings. Such a key begins, right after the scanned prefix, with 9 … 255 0xFF
+// bytes: it sorts after prefix ++ 9×0xFF and before prefixEnd(prefix) = prefix ++ 257×0xFF.
+func ffRunPool(o *drv.Out) (keys, pfxs [][]byte) {
+	r := o.Rng
+	comp := func(run int) []byte {
+		b := append([]byte{0xFF}, bytes.Repeat([]byte{0xFF}, run)...)
+		for len(b) < 256 {
+			b = append(b, byte(r.Intn(255))) // < 0xFF
+		}
+		return b
+	}
+	parents := [][]byte{{}, {1, 'p'}, {2, 0xFF, 0xFF}}
+	for _, par := range parents {
+		for _, run := range []int{8, 9, 17, 18, 100, 254} {
+			if r.Intn(3) > 0 {
+				keys = append(keys, append(append([]byte{}, par...), comp(run)...))
+			}
+		}
+		if len(par) > 0 {
+			for i := 0; i < 3; i++ {
+				keys = append(keys, append(append([]byte{}, par...), 1, byte(r.Intn(256))))
+			}
+			keys = append(keys, append(append([]byte{}, par...), 9, 0xFF, 0xFF, 0xFF, 0xFF, 0xFF, 0xFF, 0xFF, 0xFF, 0xFF))
+			pfxs = append(pfxs, par)
+		}
+	}
+	keys = append(keys, []byte{1, 'q'}, []byte{3, 0xFF, 0xFF, 0xFE})
+	keys = dedup(keys)
+	pfxs = append(pfxs, nil, nil, []byte{1, 'q'})
+	for _, k := range keys {
+		if ffRun(k) && r.Intn(3) == 0 {
+			pfxs = append(pfxs, k) // a prefix that is itself a key
+		}
+	}
+	return
+}
+
 // noteKey maintains the WFKeys flag (decidable on the concrete key set)
 func (c *kase) noteKey(k []byte) {
 	if c.written[string(k)] {
 		return
 	}
-	if len(k) > 245 || len(k) == 0 {
+	if len(k) > c.keyMax() || len(k) == 0 {
 		c.wf = false
 	}
 	for o := range c.written {
@@ -260,7 +352,7 @@ func (c *kase) dbClean(p []byte) bool {
 	}
 	for _, l := range layers {
 		for k := range l {
-			if len(k) == 0 || len(k) > 245 {
+			if len(k) == 0 || len(k) > c.keyMax() {
 				return false
 			}
 		}
@@ -275,7 +367,7 @@ func (c *kase) dbClean(p []byte) bool {
 	}
 	for k := range stored {
 		if strings.HasPrefix(k, string(p)) {
-			if len(k) == 0 || len(k) > 245 {
+			if len(k) == 0 || len(k) > c.keyMax() {
 				return false // the other clauses of WFKeys: non-empty, at most 245 bytes
 			}
 			under = append(under, k)
@@ -329,16 +421,16 @@ func (c *kase) checkIter(what string, line string, got []kv, exp []kv, panicked 
 	}
 	// complete and exact
 	if len(got) != len(exp) {
-		c.fail(c.histSig("C10:iter-incomplete-or-extra", got, exp), fmt.Sprintf("%s: %s yields %d entries, versioned map has %d: got %s want %s", what, line, len(got), len(exp), showIter(got), showIter(exp)))
+		c.fail(c.iterSig("C10:iter-incomplete-or-extra", got, exp), fmt.Sprintf("%s: %s yields %d entries, versioned map has %d: got %s want %s", what, line, len(got), len(exp), showIter(got), showIter(exp)))
 		return
 	}
 	for i := range got {
 		if !bytes.Equal(got[i].k, exp[i].k) {
-			c.fail(c.histSig("C10:iter-incomplete-or-extra", got, exp), fmt.Sprintf("%s: %s entry %d is %x, versioned map has %x", what, line, i, got[i].k, exp[i].k))
+			c.fail(c.iterSig("C10:iter-incomplete-or-extra", got, exp), fmt.Sprintf("%s: %s entry %d is %x, versioned map has %x", what, line, i, got[i].k, exp[i].k))
 			return
 		}
 		if !bytes.Equal(got[i].v, exp[i].v) {
-			c.fail(c.histSig("C10:iter-wrong-value", got, exp), fmt.Sprintf("%s: %s key %x has value %x, versioned map has %x", what, line, got[i].k, got[i].v, exp[i].v))
+			c.fail(c.iterSig("C10:iter-wrong-value", got, exp), fmt.Sprintf("%s: %s key %x has value %x, versioned map has %x", what, line, got[i].k, got[i].v, exp[i].v))
 			return
 		}
 	}
@@ -1133,6 +1225,16 @@ func Run(o *drv.Out) {
 		c.run(ops/2+o.Rng.Intn(ops), false)
 		if i < 2 {
 			o.Sample(strings.Join(c.history[:min(len(c.history), 6)], " ; "))
+		}
+		c.close()
+	}
+	for i := 0; i < max(6, nRaw/6); i++ {
+		keys, pfxs := ffRunPool(o)
+		c := newCase(o, fmt.Sprintf("ffrun-%d", i), keys, pfxs)
+		c.longKeys = true
+		c.run(ops/2+o.Rng.Intn(ops), false)
+		if !c.wf {
+			o.Count("case:ffrun-not-WFKeys")
 		}
 		c.close()
 	}
